@@ -4,6 +4,7 @@ CONSTANTS
   ResultsAliased = TRUE
   GetMemberRewinds = FALSE
   LazyScanDiesOnFault = FALSE
+  CloseForgetsPosition = FALSE
   EmitH = FALSE
 SPECIFICATION Spec
 INVARIANT CacheCoherent
